@@ -224,16 +224,35 @@ def placements(N, names=None):
     return out
 
 
-def make_gate(spec):
-    """spec = [name, targets, controls, arg]  ->  a Gate object of the library (via QubitCircuit.add_gate)"""
+# container forms of `targets` / `controls` on the Gate objects handed to Instruction / Scheduler.schedule:
+#   "list"    python lists (the documented form)
+#   "npint"   numpy integers: a scalar np.int64 for a single qubit, a list of np.int64 otherwise (class constructors / add_gate)
+#   "array1"  bare `Gate(name, targets=np.array([t]), controls=np.array([c]))`: one-element numpy arrays for gates with at most
+#             one target and one control (longer lists stay lists)
+# Forms the CLEAN tree does not handle are not generated: tuples / ranges (AttributeError: no `.sort`) and numpy arrays with
+# two or more elements (`==` in commutation_rules is element-wise: ValueError) -- see notes/C11.md, candidate defect.
+# "array1" is used by the oracles only (a one-element array [0] is falsy, so the code's rule is more conservative than for
+# the list [0]; the schedules are valid but differ from the model's).
+FORMS = ["list", "npint", "array1"]
+
+
+def make_gate(spec, form="list"):
+    """spec = [name, targets, controls, arg]  ->  a Gate object of the library (via QubitCircuit.add_gate); `form`: see FORMS"""
     _, _, _, Gate, QubitCircuit = _mods()
     name, ts, cs, arg = spec
     if name == "GLOBALPHASE":
         return Gate("GLOBALPHASE", arg_value=arg)
+    if form == "array1" and len(ts) <= 1 and len(cs) <= 1 and ts:
+        return Gate(name, targets=np.array(list(ts)), controls=np.array(list(cs)) if cs else None, arg_value=arg)
+    t, c = list(ts), (list(cs) if cs else None)
+    if form == "npint":
+        t = np.int64(t[0]) if len(t) == 1 else [np.int64(x) for x in t]
+        if c is not None:
+            c = np.int64(c[0]) if len(c) == 1 else [np.int64(x) for x in c]
     if name not in LIBRARY:               # user-defined name: the bare Gate class (scheduler only)
-        return Gate(name, targets=list(ts), controls=list(cs) if cs else None, arg_value=arg)
+        return Gate(name, targets=t, controls=c, arg_value=arg)
     qc = QubitCircuit(max(list(ts) + list(cs)) + 1)
-    qc.add_gate(name, targets=list(ts), controls=list(cs) if cs else None, arg_value=arg)
+    qc.add_gate(name, targets=t, controls=c, arg_value=arg)
     return qc.gates[0]
 
 
@@ -245,10 +264,10 @@ def make_circuit(N, specs):
     return qc
 
 
-def make_instructions(specs, durs):
+def make_instructions(specs, durs, form="list"):
     """durs = integer numerators over DEN"""
     _, Instruction, _, _, _ = _mods()
-    return [Instruction(make_gate(s), duration=d / DEN) for s, d in zip(specs, durs)]
+    return [Instruction(make_gate(s, form), duration=d / DEN) for s, d in zip(specs, durs)]
 
 
 # ------------------------------------------------------------------------------------------
@@ -607,6 +626,80 @@ def run_call(scheduler, call, method, perm, gate_of=None, store=None, log=None):
     else:
         kw["random_shuffle"] = log is not None
     return impl_schedule(obj, method, perm, log, scheduler=scheduler, **kw)
+
+
+# cross-object histories: several Scheduler objects in one process.  A witness {"steps": [...]} is a list of
+#   {"op": "new", "id": k, "method", "perm", "cons"}         create scheduler k (cons None = the constructor's default)
+#   {"op": "mutate", "id": k, "what": "clear" | "append_a" | "pop" | "method:<m>" | "perm:<0|1>"}
+#                                                            edit a PUBLIC attribute of scheduler k in place
+#   {"op": "call", "id": k, "call": <history call>}          schedule() on scheduler k
+# Contract: a freshly constructed Scheduler behaves like one in a fresh process, whatever was done to earlier objects; a
+# mutated scheduler behaves like one constructed with its current attributes (`effective`).
+
+def apply_mutation(sch, eff, what):
+    """edit scheduler `sch` in place; `eff` = {"method", "perm", "cons"} is updated to the settings it now has"""
+    S = _mods()[0]
+    if what == "clear":
+        sch.constraint_functions.clear()
+        eff["cons"] = []
+    elif what == "append_a":
+        sch.constraint_functions.append(lambda i, j, ins: True)
+        eff["cons"] = (["q"] if eff["cons"] is None else list(eff["cons"])) + ["a"]
+    elif what == "pop":
+        if sch.constraint_functions:
+            sch.constraint_functions.pop()
+        cur = ["q"] if eff["cons"] is None else list(eff["cons"])
+        eff["cons"] = cur[:-1]
+    elif what.startswith("method:"):
+        sch.method = what[7:]
+        eff["method"] = what[7:]
+    elif what.startswith("perm:"):
+        sch.allow_permutation = what[5:] == "1"
+        eff["perm"] = what[5:] == "1"
+    else:
+        raise ValueError(what)
+
+
+def run_steps(steps, form="list"):
+    """-> list of (call, effective settings at the time of the call, status, result) for the call steps"""
+    scheds, effs, stores, out, orig = {}, {}, {}, [], []
+    mk = (lambda sp: make_gate(sp, form))
+    try:
+        for st in steps:
+            k = st["id"]
+            if st["op"] == "new":
+                scheds[k] = new_scheduler(st["method"], st["perm"], st.get("cons"))
+                effs[k] = {"method": st["method"], "perm": st["perm"], "cons": st.get("cons")}
+                stores[k] = {}
+                orig.append((scheds[k].constraint_functions, list(scheds[k].constraint_functions)))
+            elif st["op"] == "mutate":
+                apply_mutation(scheds[k], effs[k], st["what"])
+            else:
+                status, r = run_call(scheds[k], st["call"], effs[k]["method"], effs[k]["perm"], gate_of=mk, store=stores[k])
+                out.append((st["call"], dict(effs[k]), status, r))
+    finally:
+        # leave the process as it was: every list object that served as some scheduler's constraint_functions gets its
+        # content at creation time back, IN PLACE (on a tree where schedulers share a list, the shared list is restored;
+        # the history itself is self-contained and reproduces in a fresh process)
+        for lst, content in reversed(orig):
+            lst[:] = content
+    return out
+
+
+def cross_object_steps(rng, make_call, cons_choices=(None, None, None, ["q"], ["q", "a"])):
+    """random cross-object history: scheduler 0 is used, then one of its public attributes is edited in place, then a NEW
+    scheduler (mostly default-constructed) is created and used; sometimes scheduler 0 is used again afterwards"""
+    m0, m1 = rng.choice(["ASAP", "ALAP"]), rng.choice(["ASAP", "ALAP"])
+    steps = [{"op": "new", "id": 0, "method": m0, "perm": True, "cons": rng.choice(cons_choices)}]
+    if rng.random() < 0.7:
+        steps.append({"op": "call", "id": 0, "call": make_call()})
+    for _ in range(rng.randint(1, 2)):
+        steps.append({"op": "mutate", "id": 0, "what": rng.choice(["clear", "clear", "append_a", "pop", "method:ALAP", "perm:0"])})
+    steps.append({"op": "new", "id": 1, "method": m1, "perm": True, "cons": rng.choice(cons_choices)})
+    steps.append({"op": "call", "id": 1, "call": make_call()})
+    if rng.random() < 0.5:
+        steps.append({"op": "call", "id": 0, "call": make_call()})
+    return steps
 
 
 def cycles_of(call, result):
